@@ -123,6 +123,68 @@ def _replay_contract(env_name, backend):
     return {'reproduced': True, 'raised': '%s: %s' % (type(e).__name__, str(e)[:300])}
 
 
+_DIGEST_SCRIPT = r'''
+import sys, json, hashlib
+import jax, jax.numpy as jp
+from brax import envs
+out = {}
+for spec in sys.argv[1:]:
+    name, backend = spec.split('/')
+    try:
+        env = envs.get_environment(name, backend=backend)
+        key = jax.random.PRNGKey(0)
+        rs = jax.eval_shape(env.reset, key)
+        j1 = jax.make_jaxpr(env.reset)(key)
+        sj = jax.make_jaxpr(env.step)(jax.tree_util.tree_map(lambda s: jp.zeros(s.shape, s.dtype), rs), jp.zeros((env.action_size,), rs.reward.dtype))
+        out[spec] = [hashlib.sha256(str(j1).encode()).hexdigest(), hashlib.sha256(str(sj).encode()).hexdigest()]
+    except Exception as e:
+        out[spec] = ['error', type(e).__name__]
+print('DIGESTS ' + json.dumps(out))
+'''
+
+
+def cross_process(pairs, tiers):
+  """"a deterministic pure function of the reset key and the actions" must not depend on the interpreter run either: the traced programs (reset and step) are compared
+  between fresh interpreters started with different PYTHONHASHSEED values (iteration order of sets / dicts of strings leaking into an observation or reward shows here)"""
+  def run():
+    import subprocess, sys, os, json
+    specs = ['%s/%s' % p for p in pairs]
+    res = {}
+    for hs in ('1', '2', '3'):
+      env = dict(os.environ, PYTHONHASHSEED=hs, JAX_PLATFORMS='cpu')
+      try:
+        p = subprocess.run([sys.executable, '-c', _DIGEST_SCRIPT] + specs, capture_output=True, text=True, timeout=1500, env=env)
+      except subprocess.TimeoutExpired:
+        return Result(UNDECIDED, 'tracing subprocess timed out')
+      line = [l for l in p.stdout.splitlines() if l.startswith('DIGESTS ')]
+      if not line:
+        return Result(ERROR, 'tracing subprocess failed: %s' % p.stderr[-400:])
+      res[hs] = json.loads(line[0][8:])
+    bad = [s for s in specs if len({tuple(res[hs][s]) for hs in res}) != 1 and res['1'][s][0] != 'error']
+    if bad:
+      return Result(REFUTED, 'the traced reset/step programs of %s differ between interpreter runs (PYTHONHASHSEED 1 / 2 / 3): not a function of key and actions alone' % bad,
+                    witness={'envs': bad}, replay=_replay_xproc(bad[0]))
+    n = len([s for s in specs if res['1'][s][0] != 'error'])
+    if n == 0:
+      return Result(ERROR, 'no environment traced (vacuous)')
+    return Result(PROVED, '%d (env, backend) pairs: reset and step trace to the identical program in three fresh interpreters with different hash seeds' % n, stats={'pairs': n})
+  return Obligation('C16/registry/cross_process_determinism', 'brax.envs:* (reset, step)', 'the traced reset and step programs are identical across fresh interpreter runs with different PYTHONHASHSEED: '
+                    'observations, rewards and done flags are a function of the reset key and the actions only, not of the process', run, backend='abstract-interp', tiers=tiers, budget=1800)
+
+
+def _replay_xproc(spec):
+  """native: the same rollout in two fresh interpreters"""
+  import subprocess, sys, os
+  name, backend = spec.split('/')
+  code = ("import jax, jax.numpy as jp, numpy as np\nfrom brax import envs\nenv = envs.get_environment(%r, backend=%r)\ns = jax.jit(env.reset)(jax.random.PRNGKey(7))\n"
+          "s = jax.jit(env.step)(s, jp.ones((env.action_size,)) * 0.3)\nprint('OBS', np.asarray(s.obs, dtype=float).round(6).tolist(), float(s.reward))\n") % (name, backend)
+  outs = []
+  for hs in ('1', '2', '3'):
+    p = subprocess.run([sys.executable, '-c', code], capture_output=True, text=True, timeout=900, env=dict(os.environ, PYTHONHASHSEED=hs, JAX_PLATFORMS='cpu'))
+    outs.append([l for l in p.stdout.splitlines() if l.startswith('OBS')][:1])
+  return {'reproduced': len({str(o) for o in outs}) > 1, 'env': spec, 'observations_per_hash_seed': outs}
+
+
 def unsupported_rejected():
   def run():
     from brax import envs
@@ -192,13 +254,22 @@ def obligations(tier):
   Q, Th = ('quick', 'thorough'), ('thorough',)
   obs = [unsupported_rejected()]
   k = 0
+  qpairs, allpairs = [], []
   for e in ENVS:
     for b in BACKENDS:
       if not supported(e, b):
         continue
       quick = (ENVS.index(e) % 3 == BACKENDS.index(b)) or e in ('swimmer', 'inverted_pendulum')
       obs.append(contract(e, b, Q if quick else Th))
+      (qpairs if quick else allpairs).append((e, b))
       k += 1
+  # one backend per environment is enough for the quick tier (the observation / reward code is shared by the backends)
+  seen, q1 = set(), []
+  for e, b in qpairs + allpairs:
+    if e not in seen and e != 'swimmer':
+      seen.add(e)
+      q1.append((e, b))
+  obs.append(cross_process(q1 if tier == 'quick' else [p for p in qpairs + allpairs if p[0] != 'swimmer'], Q))
   for e, b in [('inverted_pendulum', 'generalized'), ('reacher', 'spring'), ('hopper', 'positional'), ('swimmer', 'generalized')]:
     obs.append(rollout(e, b, 100, 4, Q))
   # environments that stay finite only because their termination conditions + auto-reset cut unstable episodes short (ant on the generalized backend under saturating
